@@ -1,7 +1,10 @@
 import Tibc.Props.C02
 import Tibc.Expect.Packet
+import Tibc.Expect.Keys
 #print axioms Tibc.C02.deliveries_append
 #print axioms Tibc.C02.inv_step
 #print axioms Tibc.C02.deliver_at_most_once
 #print axioms Tibc.C02.recv_requires_fresh
 #print axioms Tibc.C02.recv_accepts_live_packet
+#print axioms Tibc.C02.receipt_key_injective
+#print axioms Tibc.C02.receipt_key_family_disjoint
